@@ -210,4 +210,4 @@ def run(ctx, props=PROPS, random_only=False, nrand=None):
         "correspondence_mismatches": len(mism), "oracle_failures": len(bad), "samples": samples or [{"note": "no ops ran"}],
         "schemas": [{"name": u.name, "options": u.options, "error": trunc(u.error, 200) if u.error else None} for u in units],
     })
-    ctx.assumptions += ["64-bit platform", "templates modelled, not verified", "theorem C02_canonical_partial excludes map-backed dictionaries (covered by correspondence + Go-side stability oracle)"]
+    ctx.assumptions += ["64-bit platform", "templates modelled, not verified", "C02_canonical_modulo_dict covers all well-formed schemas; the fixed-point theorem needs the strict writer under the length-sanity option"]
